@@ -44,6 +44,9 @@ var reData = regexp.MustCompile("(0x[0-9a-f]+|'.*'|\".*\"|[0-9]+)")
 func sigOf(prefix, msg string) string {
 	// strip offsets / quoted data so that the same structural reason gives the same signature
 	msg = reOffset.ReplaceAllString(msg, "")
+	if i := strings.Index(msg, ", got "); i >= 0 {
+		msg = msg[:i]
+	}
 	msg = reData.ReplaceAllString(msg, "_")
 	if len(msg) > 80 {
 		msg = msg[:80]
